@@ -100,6 +100,9 @@ func init() {
 		case "cell":
 			r := tCell(rest)
 			return fmt.Sprintf("%s %s %d", r.lint, r.interp, r.runs)
+		case "cellm":
+			r := tCell(rest)
+			return fmt.Sprintf("%s %s %d | %s", r.lint, r.interp, r.runs, r.interpMsg)
 		case "show":
 			r := tCell(rest)
 			return fmt.Sprintf("%s %s | lint: %s | interp: %s | program: %s", r.lint, r.interp, r.lintMsg, r.interpMsg, r.src)
@@ -344,8 +347,11 @@ func tIDArg(fn string, pos int, mask int) string {
 			return "beresp"
 		}
 		return "resp"
-	case fn == "std.collect" || fn == "std.count":
+	case fn == "std.collect":
 		return "req.http.X-Verif"
+	case fn == "std.count":
+		// a header collection
+		return "req.headers"
 	case strings.HasPrefix(fn, "ratelimit.penaltybox"):
 		return "pb_one"
 	case fn == "ratelimit.ratecounter_increment":
@@ -404,11 +410,12 @@ func tFuncBodyID(name string, sigIdx int, mask int, idArg string) (decls, body s
 		}
 		for i, t := range f.Arguments[sigIdx] {
 			if t == types.IDType {
-				if idArg != "" {
+				if idArg != "" && idArg != "@" {
 					args = append(args, idArg)
 					idArg = ""
 					continue
 				}
+				idArg = ""
 				args = append(args, tIDArg(name, i, mask))
 				continue
 			}
@@ -425,6 +432,14 @@ func tFuncBodyID(name string, sigIdx int, mask int, idArg string) (decls, body s
 			v, ok := tValueOf(t.String())
 			if !ok {
 				return "", "", fmt.Errorf("no value of type %s", t)
+			}
+			if (name == "digest.rsa_verify" || name == "digest.ecdsa_verify") && t == types.StringType {
+				// public key (PEM), payload, signature over the SHA-256 of the payload in the base64 flavour of the signature
+				v = tDigestArg(name, i, len(f.Arguments[sigIdx]))
+			}
+			if (name == "ratelimit.check_rate" || name == "ratelimit.check_rates") && t == types.IntegerType {
+				// delta, window, limit inside the ranges the function accepts
+				v = []string{"1", "10", "100", "1"}[(i+2)%4]
 			}
 			if strings.HasPrefix(name, "crypto.") && t == types.StringType {
 				// key, iv, text: 16 bytes each (hex; the text of the _base64 variants in base64)
